@@ -699,15 +699,30 @@ def _exemplars_info(info, tname=None):
             bad.append(hi + 3)
         if xhi is not None:
             bad.append(xhi + 3)
+        def inside(v):
+            if lo is not None and v < lo:
+                return False
+            if xlo is not None and v <= xlo:
+                return False
+            if hi is not None and v > hi:
+                return False
+            if xhi is not None and v >= xhi:
+                return False
+            return True
+        # boundaries, zero and negatives where the type admits them (falsy / edge values are where slips hide)
+        for v in (0, -2, lo, hi):
+            if v is not None and inside(v) and v not in good:
+                good.append(v)
         if k == 'dec':
             extra = []
             for g in good:
-                v = g + 0.5
-                if (hi_eff is None or v <= hi_eff) and (lo_eff is None or v >= lo_eff):
-                    extra.append(v)
+                for v in (g + 0.5, float(g)):
+                    if inside(v) and not any(v == x and type(v) is type(x) for x in extra):
+                        extra.append(v)
             good = good + extra
         else:
             bad.append((good[0] if good else 1) + 0.5)
+            bad.append(float(good[0] if good else 1))       # 4.0 is not in the lexical space of an integer type
         return good, bad
     if k == 'string':
         return ['a', 'hello world', 'Text-1'], []
